@@ -64,14 +64,30 @@ def check_lossless_rendering(ctx, rule: str) -> int:
     for f in repo.all_functions():
         if not any(f.module.rel.startswith(p) or f.module.rel == p for p in CLIENT_PACKAGES):
             continue
-        for c in calls_in(f.node):
+        from gxstat.inline import loops_to_comprehensions
+        from gxstat.srcmodel import parent
+        fnode = loops_to_comprehensions(f.node)          # a list built by loop-append reads as the comprehension it is
+        for c in calls_in(fnode):
             if not (isinstance(c.func, ast.Attribute) and c.func.attr == 'join' and isinstance(c.func.value, ast.Constant) and
                     isinstance(c.func.value.value, str) and ',' in c.func.value.value and c.args):
                 continue
             comp = c.args[0]
             if not isinstance(comp, (ast.ListComp, ast.GeneratorExp)):
                 continue
-            if not any('items()' in norm(g.iter) or 'param' in norm(g.iter) for g in comp.generators):
+
+            def over_items(g) -> bool:
+                if 'items()' in norm(g.iter) or 'param' in norm(g.iter):
+                    return True
+                # the pair variable of an enclosing comprehension / loop over `.items()`
+                if isinstance(g.iter, ast.Name):
+                    q = parent(c)
+                    while q is not None and q is not fnode:
+                        for og in (q.generators if isinstance(q, (ast.ListComp, ast.GeneratorExp, ast.SetComp)) else [q] if isinstance(q, ast.For) else []):
+                            if norm(og.target) == g.iter.id and 'items()' in norm(og.iter):
+                                return True
+                        q = parent(q)
+                return False
+            if not any(over_items(g) for g in comp.generators):
                 continue
             n += 1
             elt = comp.elt
